@@ -491,5 +491,20 @@ pub fn structured_function(rng: &mut Rng, cfg: &GenCfg, address: u64) -> il::Fun
 
 /// `function` or, one time in three, `structured_function`
 pub fn any_function(rng: &mut Rng, cfg: &GenCfg, address: u64) -> il::Function {
-    if rng.chance(1, 3) { structured_function(rng, cfg, address) } else { function(rng, cfg, address) }
+    let mut f = if rng.chance(1, 3) { structured_function(rng, cfg, address) } else { function(rng, cfg, address) };
+    // instruction indices need not be the positions in the block: in a third of the functions an instruction is
+    // removed here and there (never the last one of a block)
+    if rng.chance(1, 3) {
+        let ids: Vec<usize> = f.blocks().iter().map(|b| b.index()).collect();
+        for b in ids {
+            if rng.chance(1, 2) {
+                let idxs: Vec<usize> = f.block(b).unwrap().instructions().iter().map(|i| i.index()).collect();
+                if idxs.len() >= 2 {
+                    let victim = idxs[rng.below((idxs.len() - 1) as u64) as usize];
+                    f.block_mut(b).unwrap().remove_instruction(victim).unwrap();
+                }
+            }
+        }
+    }
+    f
 }
